@@ -59,6 +59,36 @@ def stale_knowledge(run, graphs, seeds, wide=False, caches=('__private__', '__sh
     return traces
 
 
+def many_snapshots(run, graphs, seeds, n=13):
+    """more snapshots than ten times the concurrency (one worker here): loaders that work in batches, listings of several pages"""
+    from .. import harness, repodrv
+    traces = []
+    for g in graphs:
+        for seed in seeds:
+            with harness.scratch() as d:
+                s = repodrv.Session(g, d, seed=seed, concurrent=1, cache=[None, '__private__'][seed % 2])
+                r = s.rng
+                desc = []
+                for i in range(n):
+                    u = s.users[i % len(s.users)]
+                    f = s.write_file('m%02d.bin' % i, r.randbytes(r.choice([150, 400, 900])))
+                    o = s.snapshot(u, [f])
+                    desc.append('snapshot(%s, m%02d)->%s' % (u, i, o.etype))
+                for u in s.users:
+                    o = s.clean(u)                      # nothing is garbage: must be a no-op
+                    desc.append('clean(%s)->%s' % (u, o.etype))
+                for u in s.users:
+                    rd = s.readable(u)
+                    if rd:
+                        o = s.delete(u, [rd[len(rd) // 2]])
+                        desc.append('delete(%s)->%s' % (u, o.etype))
+                        s.ls(u)
+                restore_all(s, desc)
+                traces.append(s.trace(extra={'history': desc, 'opts': {'snapshots': n, 'concurrent': 1}}))
+                run.case(('many-snapshots', g, seed, n))
+    return traces
+
+
 def main(run):
     quick = run.tier == 'quick'
     rc.design(run, ['mixed', 'shared'] if quick else ['plain', 'same', 'shared', 'indep', 'mixed'],
@@ -73,6 +103,7 @@ def main(run):
                            flavour='async', concurrent=2, post=restore_all)
     traces += rc.histories(run, ['plain', 'shared'] if quick else rc.ALL_GRAPHS, range(run.seed * 100 + 90, run.seed * 100 + 90 + (1 if quick else 8)), 12 if quick else 25,
                            flavour='s3', post=restore_all)      # over the real S3 adapter, paged listings
+    traces += many_snapshots(run, ['shared', 'plain'] if quick else rc.ALL_GRAPHS, range(run.seed * 10, run.seed * 10 + (1 if quick else 3)), 13 if quick else 34)
     traces += stale_knowledge(run, ['shared', 'plain', 'mixed'] if quick else rc.ALL_GRAPHS, range(run.seed * 10, run.seed * 10 + (1 if quick else 4)))
     traces += stale_knowledge(run, ['shared'] if quick else ['shared', 'mixed', 'chain'], range(run.seed * 10 + 7, run.seed * 10 + 8), wide=True, caches=('__private__',))
     rc.validate(run, traces, CLAUSES, label='c02.histories')
